@@ -7,7 +7,8 @@ from ..impl_dtcwt import IMPL
 
 PROP = 'C04'
 MODULE = 'WaveletsVerif.Properties.C04'
-THEOREMS = ['WV.C04.c2q_q2c', 'WV.C04.extendEven_length', 'WV.C04.xt_colfilter', 'WV.C04.colfilter_pr', 'WV.C04.level1_pr', 'WV.C04.pr1_of_bounded']
+THEOREMS = ['WV.C04.c2q_q2c', 'WV.C04.extendEven_length', 'WV.C04.xt_colfilter', 'WV.C04.colfilter_pr', 'WV.C04.level1_pr', 'WV.C04.pr1_of_bounded',
+            'WV.C04Q.xt_coldfilt', 'WV.C04Q.xt_colifilt', 'WV.C04Q.prq_of_residues', 'WV.C04Q.qshift_pr', 'WV.C04Q.level2_pr']
 OPS = ['fwd_j1', 'inv_j1', 'fwd_j2plus', 'inv_j2plus', 'q2c', 'c2q', 'DTCWTForward', 'DTCWTInverse']
 
 
@@ -46,6 +47,62 @@ def oracle_pr(ck, b, s, J, x, o=2, ri=-1):
     return None
 
 
+# --- the hypothesis PRq of WV.C04Q.level2_pr, measured on the shipped q-shift tables ---------------------------
+def _treeD(h, off, X, v):
+    m = len(h)
+    return sum(h[m - 1 - j] * X(4 * v + 2 * j + off - m) for j in range(m))
+
+
+def _lineD(ha, hb, hp, X, w):
+    v = w // 2
+    if w % 2 == 0:
+        return _treeD(hb, 3, X, v) if hp else _treeD(ha, 2, X, v)
+    return _treeD(ha, 2, X, v) if hp else _treeD(hb, 3, X, v)
+
+
+def _lineE(ha, hb, hp, Y, u):
+    m = len(ha); m2 = m // 2; v = u // 4; c = u % 4
+    br = lambda h, off, ph: sum(h[m - off - 2 * j] * Y(2 * (v + j) + ph - m2) for j in range(m2))
+    if m2 % 2 == 0:
+        return [lambda: br(ha, 1, 1 if hp else 0), lambda: br(hb, 1, 0 if hp else 1), lambda: br(ha, 2, 3 if hp else 2), lambda: br(hb, 2, 2 if hp else 3)][c]()
+    return [lambda: br(ha, 2, 2 if hp else 1), lambda: br(hb, 2, 1 if hp else 2), lambda: br(ha, 1, 2 if hp else 1), lambda: br(hb, 1, 1 if hp else 2)][c]()
+
+
+def prq_residual(h0, h1, g0, g1):
+    """max over the four output phases c and all impulse positions t of
+    | lineE g0 (lineD h0 delta_t) c + lineE g1 (lineD h1 delta_t) c - [t = c] |  — the Lean definition WV.C04Q.PRq
+    (h0.. are the FIRST filter arguments of coldfilt/colifilt, i.e. the tables' tree-b filters; the second is the reverse)"""
+    h0, h1, g0, g1 = [list(map(float, np.ravel(v))) for v in (h0, h1, g0, g1)]
+    B = 2 * (len(h0) + len(g0)) + 12
+    worst = 0.0
+    for t in range(-B, B + 1):
+        X = lambda i, t=t: 1.0 if i == t else 0.0
+        Y0 = lambda w: _lineD(h0, h0[::-1], False, X, w)
+        Y1 = lambda w: _lineD(h1, h1[::-1], True, X, w)
+        for c in range(4):
+            v = _lineE(g0, g0[::-1], False, Y0, c) + _lineE(g1, g1[::-1], True, Y1, c)
+            worst = max(worst, abs(v - (1.0 if t == c else 0.0)))
+    return worst
+
+
+def oracle_prq(ck):
+    """hypotheses of level2_pr on the shipped tables: tree a = reverse(tree b) exactly, PRq to the stored precision"""
+    out = {}
+    for s in OD.QSHIFTS:
+        qt = OD.lib_tables(OD.BIORTS[0], s)[1]
+        h0a, h0b, g0a, g0b, h1a, h1b, g1a, g1b = [np.ravel(v) for v in qt]
+        desc = 'q-shift table %s' % s
+        rev = all(np.array_equal(a, b[::-1]) for a, b in ((h0a, h0b), (h1a, h1b), (g0a, g0b), (g1a, g1b)))
+        res = prq_residual(h0b, h1b, g0b, g1b)
+        out[s] = {'tree_a_is_reverse_of_tree_b': bool(rev), 'PRq_residual': res, 'taps': int(len(h0a))}
+        if not rev:
+            ck.fail(desc + ': tree a is not the time reverse of tree b (hypothesis of WV.C04Q.level2_pr)', {'oracle': 'prq', 's': s}); continue
+        if not res < 1e-6:
+            ck.fail(desc + ': PRq residual %.3g (perfect reconstruction on the line, hypothesis of WV.C04Q.level2_pr)' % res, {'oracle': 'prq', 's': s}); continue
+        ck.oracle_ok(('prq', s), group='prq-hypothesis', sample={'table': s, 'PRq_residual': res})
+    ck.extra['PRq_hypothesis_measured'] = out
+
+
 def oracle_reuse(ck, b, s, J, shapes):
     """several forward calls on ONE module instance, inverted afterwards in a different order:
     results are values - a later call must not change an earlier result"""
@@ -70,6 +127,8 @@ def oracle_reuse(ck, b, s, J, shapes):
 def oracle(ck, extended):
     rng = ck.rng
     q = ck.tier == 'quick'
+    if not extended:
+        rt.guard(ck, oracle_prq, ck)
     pairs = [(b, s) for b in OD.BIORTS for s in OD.QSHIFTS]
     for (b, s) in (pairs if q else pairs * 6) * (2 if extended else 1):
         J = rng.randint(1, 3 if q else 5)
@@ -98,7 +157,9 @@ def replay(ck, path):
     if not f:
         print('replay file names no failing input: %s' % d.get('broken_obligations'))
         return 1
-    if f['oracle'] == 'reuse':
+    if f['oracle'] == 'prq':
+        oracle_prq(ck)
+    elif f['oracle'] == 'reuse':
         oracle_reuse(ck, f['b'], f['s'], f['J'], [tuple(sh) for sh in f['shapes']])
     else:
         oracle_pr(ck, f['b'], f['s'], f['J'], arr_from(f['x']), f['o'], f['ri'])
